@@ -16,6 +16,7 @@ import (
 	"github.com/ovrclk/akash/client/broadcaster"
 	"github.com/ovrclk/akash/provider/bidengine"
 	ctypes "github.com/ovrclk/akash/provider/cluster/types"
+	"github.com/ovrclk/akash/provider/event"
 	"github.com/ovrclk/akash/provider/session"
 	"github.com/ovrclk/akash/pubsub"
 	atypes "github.com/ovrclk/akash/types"
@@ -32,10 +33,15 @@ import (
 
 // environment events (each at most once per execution)
 const (
-	evClosed     = "order-closed"     // EventOrderClosed for our order
-	evWon        = "lease-won"        // EventLeaseCreated, our order, our provider
-	evLost       = "lease-lost"       // EventLeaseCreated, our order, another provider
-	evOtherGroup = "lease-othergroup" // EventLeaseCreated, ANOTHER group of the deployment, our provider (must be ignored)
+	evClosed = "order-closed" // EventOrderClosed for our order
+	evWon    = "lease-won"    // EventLeaseCreated, our order, our provider
+	evLost   = "lease-lost"   // EventLeaseCreated, our order, another provider
+	// EventLeaseCreated for OUR provider that differs from this order in exactly one id component: each must
+	// be ignored (it is not a win of this order)
+	evOtherGroup = "lease-othergroup" // another GSeq (another group of the deployment)
+	evOtherOwner = "lease-otherowner" // another tenant, same dseq/gseq/oseq
+	evOtherDSeq  = "lease-otherdseq"  // another deployment of the same tenant, same gseq/oseq
+	evOtherOSeq  = "lease-otheroseq"  // another order of the same group
 	evShutdown   = "shutdown"         // the parent service begins to shut down
 )
 
@@ -57,7 +63,7 @@ var kindOrder = map[string]int{kGroup: 0, kBidQuery: 1, kAttr: 2, kReserve: 3, k
 // result variants per call kind; the ones in faultVariants count against the failure budget
 var okVariants = map[string][]string{
 	kGroup:     {"ok"},
-	kBidQuery:  {"notfound", "found"},
+	kBidQuery:  {"notfound"},
 	kAttr:      {"match", "nomatch"},
 	kReserve:   {"ok"},
 	kPrice:     {"ok", "above"},
@@ -77,7 +83,7 @@ type Config struct {
 	Name        string
 	Tier        string // "quick" | "thorough" (a thorough configuration with more failures subsumes its quick sibling)
 	ExistingBid bool   // checkForExistingBid (catch-up order after a restart)
-	BidQ        string // catch-up: what the existing-bid query answers ("found" | "notfound") unless it is in Faults
+	BidQ        string // catch-up: what the existing-bid query answers ("notfound" | "found-open" | "found-active" | "found-lost" | "found-closed") unless it is in Faults
 	SigReq      bool   // the group demands auditor-signed attributes (adds the attribute-signature call)
 	BidTimeout  bool   // Config.BidTimeout > 0: a virtual timer may fire after the bid was placed
 	Events      []string
@@ -141,6 +147,7 @@ type inst struct {
 
 	calls      []*call
 	nReserveOK int
+	leaseWon   []mtypes.LeaseID // distinct leases for which event.LeaseWon was published
 
 	// environment-owned
 	events       []string
@@ -207,6 +214,18 @@ func (h *inst) body() {
 	prov := &ptypes.Provider{Owner: h.provAddr.String(), Attributes: atypes.Attributes{{Key: "region", Value: "us"}}}
 	sess := session.New(log.NewNopLogger(), &scriptedClient{h: h}, prov)
 	h.bus = pubsub.NewBus()
+	// LeaseWon events the monitor puts on the bus (seen as values sent over the bus channels; a per-sender
+	// record, hence a function of the sender's history)
+	vs.SetTap(func(e vs.TapEvent) {
+		if lw, ok := e.Val.(event.LeaseWon); ok && e.Send {
+			for _, id := range h.leaseWon {
+				if id == lw.LeaseID {
+					return
+				}
+			}
+			h.leaseWon = append(h.leaseWon, lw.LeaseID)
+		}
+	})
 	cfg := bidengine.Config{PricingStrategy: &scriptedPricing{h: h}, Deposit: mtypes.DefaultBidMinDeposit}
 	if h.cfg.BidTimeout {
 		cfg.BidTimeout = 5 * time.Minute
@@ -260,6 +279,10 @@ func (h *inst) call(kind string, price sdk.Coin) string {
 
 var errInjected = errors.New("injected failure")
 
+var bidStates = map[string]mtypes.Bid_State{
+	"found-open": mtypes.BidOpen, "found-active": mtypes.BidActive, "found-lost": mtypes.BidLost, "found-closed": mtypes.BidClosed,
+}
+
 type scriptedClient struct{ h *inst }
 
 func (c *scriptedClient) Query() client.QueryClient { return &scriptedQuery{h: c.h} }
@@ -279,9 +302,11 @@ func (q *scriptedQuery) Group(_ context.Context, _ *dtypes.QueryGroupRequest, _ 
 }
 
 func (q *scriptedQuery) Bid(_ context.Context, req *mtypes.QueryBidRequest, _ ...grpc.CallOption) (*mtypes.QueryBidResponse, error) {
-	switch q.h.call(kBidQuery, sdk.Coin{}) {
-	case "found":
-		return &mtypes.QueryBidResponse{Bid: mtypes.Bid{BidID: req.ID, State: mtypes.BidOpen, Price: sdk.NewInt64Coin(denom, maxPrice)}}, nil
+	v := q.h.call(kBidQuery, sdk.Coin{})
+	switch v {
+	case "found-open", "found-active", "found-lost", "found-closed":
+		// the provider's own bid on this order, left by an earlier incarnation, in any of its states
+		return &mtypes.QueryBidResponse{Bid: mtypes.Bid{BidID: req.ID, State: bidStates[v], Price: sdk.NewInt64Coin(denom, maxPrice)}}, nil
 	case "notfound":
 		// the shape of the gRPC error the chain returns (order.go matches "^.+bid not found.+$")
 		return nil, errors.New("rpc error: code = Unknown desc = invalid request: bid not found: invalid request")
@@ -457,9 +482,18 @@ func (h *inst) inject(ev string) {
 	case evLost:
 		h.exitCaused = true
 		err = h.bus.Publish(leaseFor(h.orderID, h.other))
-	case evOtherGroup:
+	case evOtherGroup, evOtherOwner, evOtherDSeq, evOtherOSeq:
 		oid := h.orderID
-		oid.GSeq++
+		switch ev {
+		case evOtherGroup:
+			oid.GSeq++
+		case evOtherOwner:
+			oid.Owner = addr(0x44).String()
+		case evOtherDSeq:
+			oid.DSeq++
+		case evOtherOSeq:
+			oid.OSeq++
+		}
 		err = h.bus.Publish(leaseFor(oid, h.provAddr))
 	case evShutdown:
 		h.exitCaused = true
@@ -543,6 +577,36 @@ func (h *inst) check(r *vs.Result) (string, []string) {
 		// (3) only after resources were reserved
 		if !c.afterReserveOK {
 			bad("bid-after-reserve:create-bid-without-successful-reserve", "MsgCreateBid submitted although no Reserve had returned successfully before")
+		}
+	}
+	// (1b) "at most one bid" across restarts: the existing-bid query answered with this provider's own bid on
+	// this order (in whatever state) - a MsgCreateBid in this run would be a second bid
+	for _, q := range byKind[kBidQuery] {
+		if strings.HasPrefix(q.result, "found-") && len(creates) > 0 {
+			bad("second-bid:existing-bid-"+strings.TrimPrefix(q.result, "found-"), "MsgCreateBid broadcast although the existing-bid query had returned this provider's bid on the order (state %s)", strings.TrimPrefix(q.result, "found-"))
+		}
+	}
+	// (1c) LeaseWon may only be announced for the lease of THIS order and THIS provider
+	ours := mtypes.MakeLeaseID(mtypes.MakeBidID(h.orderID, h.provAddr))
+	for _, id := range h.leaseWon {
+		var diff []string
+		if id.Owner != ours.Owner {
+			diff = append(diff, "owner")
+		}
+		if id.DSeq != ours.DSeq {
+			diff = append(diff, "dseq")
+		}
+		if id.GSeq != ours.GSeq {
+			diff = append(diff, "gseq")
+		}
+		if id.OSeq != ours.OSeq {
+			diff = append(diff, "oseq")
+		}
+		if id.Provider != ours.Provider {
+			diff = append(diff, "provider")
+		}
+		if len(diff) > 0 {
+			bad("foreign-lease-taken-as-win:"+strings.Join(diff, "+"), "LeaseWon was published for lease %v, which is not the lease of this order (%v) and provider", id, h.orderID)
 		}
 	}
 	if len(byKind[kOtherTx]) > 0 {
@@ -632,6 +696,6 @@ func (h *inst) check(r *vs.Result) (string, []string) {
 			b.WriteString("(no-reserve-before)")
 		}
 	}
-	fmt.Fprintf(&b, "]|ended=%v drained=%v won=%v", h.ended, h.drained, h.wonPublished)
+	fmt.Fprintf(&b, "]|ended=%v drained=%v won=%v leasewon=%d", h.ended, h.drained, h.wonPublished, len(h.leaseWon))
 	return b.String(), viol
 }
